@@ -209,6 +209,9 @@ def configs(tier, seed):
 
 
 def main(tier):
+    import os
+    # the state-space members of the relational family contain a few large sampled circuits on which the solver grinds: cut after 4 minutes
+    os.environ.setdefault('VERIF_CONFIG_BUDGET_S', '240')
     driver.assert_repo_import()
     rep = driver.Report(PID, tier)
     cfgs, _ = configs(tier, driver.seed_of())
